@@ -353,7 +353,8 @@ The standalone-object part on the base timeframe is PROVED for all 27 classes: `
 are repaired in the library, see known_findings `fixed`).  As a `Prop` the statement below additionally claims
 that the final `calculate()` RETURNS, which is C09's subject (exact ordered field: `C09.X_never_raises`).
 Collapsing timeframes / gap filling: `C14_trees_mgr`, `C14_trees_tf` and the `…_trees_tf` theorems.
-Missing: the Hexital façade operations, Heikin-Ashi / lifespan managers, an explicit `end_index`. -/
+Heikin-Ashi managers: `C14_trees_ha`, `C14_trees_haCfg`, `calculate_index_reproduces_trees_haCfg`; façade programs: `C14_member*`; lifespan: `C14_trees_lifespan`.
+Missing: lifespan combined with a timeframe, the observed member itself removed / re-added, an explicit `end_index`. -/
 def C14_FULL (F : Type) [PyF F] : Prop :=
   ∀ (k : Kind F) (name : String) (round : Nat) (init : List (Candle F)) (ops : List (Op F))
     (s : IndState F),
@@ -587,5 +588,24 @@ example := @LifeWitness.append_ne_batch_sameCfg
 /-- non-vacuity: a 12-step program that pops before and after a `recalculate()` -/
 example := @LifeWitness.progL_runs
 example := @LifeWitness.progL_sem
+
+
+/-! ### Heikin-Ashi managers, continued: `calculate_index` on the finished batch state -/
+
+open Hex Hex.C01
+variable {F : Type} [PyF F]
+
+/-- `calculate_index(i)` reproduces the batch state at every index of the converted (collapsed, filled) list – any
+Heikin-Ashi manager (the analogue of `calculate_index_reproduces_trees_tf`) -/
+theorem calculate_index_reproduces_trees_haCfg (tf : Option Int) (htf : ∀ t, tf = some t → 0 < t) (fill : Bool)
+    (k : Kind F) (name : String) (round : Nat) (hk : CoveredTreeX name k) (raw done : List (Candle F))
+    (hraw : RawTfHA raw)
+    (h : candlesOf (runBatch (mkTop k name round) { tf := tf, fill := fill && tf.isSome, ha := true } raw) = .ok done)
+    (i : Int) (hlo : -(done.length : Int) ≤ i) (hhi : i < done.length) (act : Int) :
+    candlesOf (IndState.calculateIndex
+      ⟨mkTop k name round, ⟨{ tf := tf, fill := fill && tf.isSome, ha := true }, done⟩, act⟩ i none) = .ok done :=
+  calculateIndex_reproduces_haCfg hk round tf htf fill raw done hraw h i hlo hhi act
+
+#print axioms calculate_index_reproduces_trees_haCfg
 
 end Hex.C14
